@@ -1,11 +1,11 @@
 #!/usr/bin/env python3
-"""trypatch.py <patch.diff | 'file:line:old=>new'> [PROPS comma separated] [--seeds N] [--bin DIR]
+"""trypatch.py <patch.diff | 'file:line:old=>new'> [PROPS comma separated] [--seeds N] [--bin DIR] [--scratch DIR]
 
 Applies one change to a scratch copy of /repo (never to /repo itself), rebuilds scratch copies of the harnesses against it and runs the
 quick-tier cases of the given properties (default: all) through harness + prebuilt model driver + oracles, exactly as `check`
 classifies them, WITHOUT the proof / translation-tie part.  Used to try a generator or oracle change against a faulty
-variant while /repo or the Lean tree is busy.  Scratch directory /tmp/trypatch is reused (incremental builds) and can be
-deleted at any time."""
+variant while /repo or the Lean tree is busy.  Scratch directory /tmp/trypatch (or --scratch=DIR: use a private one when several runs are in flight) is reused
+(incremental builds) and can be deleted at any time."""
 import collections
 import importlib
 import json
@@ -28,7 +28,7 @@ def main():
     change = args[0]
     props = args[1].split(",") if len(args) > 1 else M.PROPS
     seeds = int(opts.get("--seeds", "1"))
-    scratch = "/tmp/trypatch"
+    scratch = opts.get("--scratch") or "/tmp/trypatch"
     os.makedirs(scratch, exist_ok=True)
     bindir = opts.get("--bin") or os.path.join(R.LEAN, ".lake", "build", "bin")
     json.dump({}, open(os.path.join(scratch, "cases.json"), "w"))
@@ -71,12 +71,24 @@ def main():
         cp = os.path.join(ROOT, "gen", "corpus", prop + ".txt")
         if os.path.exists(cp):
             cs += [(ln.strip(), None) for ln in open(cp) if ln.strip() and not ln.startswith("#")]
+        corpus = list(cs)
+        cross = []
+        rs_all, cs_all = [], []
         for sd in range(seeds):
+            cs = list(corpus) if sd == 0 else []
             for g in spec.cases(random.Random(20260930 + sd), "quick"):
                 cs.append((g[0], g[1]) if isinstance(g, tuple) else (g, None))
-        rs = R.run_cases(prop, [c[0] for c in cs], "try", hb, drv)
-        for r, c in zip(rs, cs):
-            r["meta"] = c[1]
+            rs1 = R.run_cases(prop, [c[0] for c in cs], "try", hb, drv)
+            for r, c in zip(rs1, cs):
+                r["meta"] = c[1]
+            if hasattr(spec, "cross"):       # cross-case relations are evaluated per seed (group ids restart with every seed)
+                try:
+                    cross += spec.cross(rs1)
+                except Exception as e:  # noqa: BLE001
+                    cross.append({"name": "cross raised " + repr(e)})
+            rs_all += rs1
+            cs_all += cs
+        rs, cs = rs_all, cs_all
         cnt = collections.Counter()
         ex = {}
         for r in rs:
@@ -86,12 +98,6 @@ def main():
             key = (c, r.get("oracle", "")[:70] if c == "oracle_fail" else (r.get("corr", "") if c == "corr_broken" else ""))
             cnt[key] += 1
             ex.setdefault(key, r)
-        cross = []
-        if hasattr(spec, "cross"):
-            try:
-                cross = spec.cross(rs)
-            except Exception as e:  # noqa: BLE001
-                cross = [{"name": "cross raised " + repr(e)}]
         print(prop, len(cs), {" ".join(k).strip(): v for k, v in cnt.items()}, "cross:", collections.Counter(c["name"] for c in cross))
         for k, r in ex.items():
             if k[0] in ("oracle_fail", "corr_broken", "impl_crash"):
